@@ -206,3 +206,27 @@ Example C05_variable_info_nonvacuous :
   | None => False
   end.
 Proof. vm_compute. split; reflexivity. Qed.
+
+(* ---- from the declarations to the axes: get_variable_info composed with the glue of create_state_choice_space ----------------------- *)
+From LCM Require Import Proofs.C05_AxesOfDeclarations.
+(* for every model (any declaration order; deterministic states, restricted variables discrete) and every period: the value array's     *)
+(* axes announced by the regenerated code are "state_index" (iff some state is filter-restricted), then the unrestricted discrete states   *)
+(* in declaration order, then the continuous states in declaration order; labels are looked up for the restricted and the unrestricted   *)
+(* discrete states, the continuous states are interpolated; the filters are evaluated at that period                                      *)
+Theorem C05_code_axes_of_the_declarations :
+  forall (is_stochastic_next : string -> bool) (filtered_variables : list string) (S C : list (string * grid)) (period : nat) (is_last : bool),
+  NoDup (map fst S ++ map fst C) ->
+  (forall sg, In sg S -> is_stochastic_next ("next_" ++ fst sg)%string = false) ->
+  (forall sg, In sg (S ++ C)%list -> mem_str (fst sg) filtered_variables = true -> is_cont (snd sg) = false) ->
+  let R := fun sg : string * grid => mem_str (fst sg) filtered_variables in
+  let rs := filter R S in
+  let dst := filter (fun sg => negb (R sg) && negb (is_cont (snd sg))) S in
+  let cst := filter (fun sg => negb (R sg) && is_cont (snd sg)) S in
+  exists vi, get_variable_info is_stochastic_next [] filtered_variables (map of_sg S) (map of_sg C) = Some vi /\
+    let plan := create_state_choice_space_plan vi period is_last in
+    axis_names plan = ((match rs with [] => [] | _ => ["state_index"%string] end) ++ map fst dst ++ map fst cst)%list /\
+    lookup_names plan = (map fst rs ++ map fst dst)%list /\
+    interpolation_names plan = map fst cst /\
+    filters_at_period plan = period.
+Proof. exact axes_of_the_declarations. Qed.
+Print Assumptions C05_code_axes_of_the_declarations.
